@@ -4,3 +4,4 @@ import OapiVerif.Props.C16
 import OapiVerif.Props.C14
 import OapiVerif.Props.C04
 import OapiVerif.Props.C05
+import OapiVerif.Props.C06
